@@ -8,7 +8,7 @@ IO_ASM = "std::io::Read/Write + byteorder contracts (prelude/base.rs): sized rea
 DUPLEX_ASM = "transport duplex axiom (prelude/base.rs axiom_duplex): reading does not change what was written and vice versa (rule R3 adds the marker bound)"
 
 # units under construction: never part of a property check
-DEV_UNITS = {"codec16", "rc4", "session", "mcs", "sec", "ntlm"}
+DEV_UNITS = {"codec16", "rc4", "mcs", "ntlm"}
 
 PROPERTIES = {
     "C13": dict(
@@ -96,6 +96,43 @@ PROPERTIES.update({
         level_note="trusted: " + DER_ASM + "; num-bigint / x509-parser / native-tls certificate accessors (prelude/nla.rs); the GenericSecurityService contract (unseal_spec) is discharged for the NTLM implementation in unit ntlm; " + CRYPTO_ASM,
         assumptions=[DER_ASM, TLS_ASM, IO_ASM, CRYPTO_ASM, "num-bigint from_bytes_le/+/!= and x509-parser subject_public_key accessors behave as documented"],
         design_ref="DESIGN.md §7 C01"),
+})
+
+MCS_ASM = "mcs::Client::write / read are used through their contracts (specs/common.py MCS_WRITE / MCS_READ); the real functions are proved against the identical text in unit mcs"
+SINK_ASM = "rule R9: the application callback `T: FnMut(RdpEvent)` is replaced by the recorder EventSink (its call appends the event to a ghost sequence)"
+EQ_ASM = "derived PartialEq of field-less enums (PDUType, PDUType2, ErrorCode, StateTransition) is structural (declared PartialEqSpecImpl)"
+PROPERTIES.update({
+    "C11": dict(
+        scope="RdpClient::write / try_write and global::Client::write_input_event (real bodies): in state Data a Pointer or Key event puts exactly ONE frame on the wire, byte for byte the slow-path input PDU of MS-RDPBCGR "
+              "(share control 0x17 / share data 0x1C / numEvents 1 / eventTime 0 / message type 0x8001 or 0x0004) carrying exactly x, y or the scancode and the flag word of the specification's tables (pointer_flags, key_flags written from the "
+              "document); Bitmap events are refused with nothing written; outside Data nothing is written; order over any sequence follows by induction on the per-call trace-append postcondition",
+        technique="contract-based deductive verification: Verus (z3), byte-exact ensures composed through builder contracts down to the MCS send-data frame",
+        level_note="trusted: " + MCS_ASM + "; " + ENGINE_ASM,
+        assumptions=[MCS_ASM, ENGINE_ASM, IO_ASM],
+        design_ref="DESIGN.md §7 C11"),
+    "C12": dict(
+        scope="global::Client::read (all six arms, real body): transition relation of the activation automaton (next state only along DemandActive→Synchronize→ControlCooperate→ControlGranted→FontMap→Data, Data→DemandActive on deactivate-all), "
+              "exactly one confirm-active + synchronize + cooperate + request-control + font-list sequence (byte-exact frames, in order) iff a demand-active is answered, nothing written in any other state, no transition on error before Data, "
+              "callbacks only in Data; write_input_event / RdpClient::write / try_write: bytes iff state Data, InvalidAutomata otherwise and try_write maps exactly that error to Ok with nothing written. Histories of any length follow by induction on these per-call contracts",
+        technique="contract-based deductive verification: Verus (z3); the history property is the inductive invariant carried by the per-operation contracts (no length bound)",
+        level_note="which server PDU kind was received is defined through the parsers' results (PDU::from_stream etc., proved total, with known-kinds-only clauses); the wire-to-structure step of dynamic layouts is the " + ENGINE_ASM + "; " + MCS_ASM + "; " + EQ_ASM,
+        assumptions=[ENGINE_ASM, MCS_ASM, EQ_ASM, SINK_ASM],
+        design_ref="DESIGN.md §7 C12"),
+    "C06": dict(
+        scope="every parser of the active session (PDU::from_stream/from_control, DataPDU::from_pdu, FastPathUpdate::from_fp, Capability::from_capability_set, read_demand_active/synchronize/control/font_map/data_pdu, read_fast_path, "
+              "global::Client::read, RdpClient::read, x224::Client::read, tpkt::Client::read) is proved TOTAL for arbitrary stream bytes in every client state: no arithmetic overflow (every `length - header` closure is verified for all 65536 values), "
+              "no failing index / unwrap / cast, every loop has a decreases clause, unknown PDU kinds are errors; allocation sizes are bounded by 16-bit length fields",
+        technique="contract-based deductive verification: Verus (z3); field-name index obligations discharged from layout shape clauses derived from the code + same_shape after read",
+        level_note="trusted: " + ENGINE_ASM + " (a layout's read panics only if one of its closures does: the closures are verified for every value of the same layout); " + IO_ASM + "; " + MCS_ASM,
+        assumptions=[ENGINE_ASM, IO_ASM, MCS_ASM, EQ_ASM],
+        design_ref="DESIGN.md §7 C06"),
+    "C10": dict(
+        scope="read_fast_path (real body): loop invariants prove that the sink grows by exactly one Bitmap event per rectangle of every bitmap update that parses, in order, each event built from THAT rectangle with the seven 16-bit fields verbatim, "
+              "is_compress == (flags & 1 != 0) and data == bitmapDataStream; other update kinds and parse failures leave the sink untouched and do not end the loop; only Bitmap events are appended; events only in state Data",
+        technique="contract-based deductive verification: Verus (z3), loop invariants and in-body claims relative to the parsed structure",
+        level_note="the step from wire bytes to the parsed update / rectangle structure goes through the " + ENGINE_ASM + " (closure contracts for the size / skip options of ts_fp_update and ts_bitmap_data are verified); " + SINK_ASM,
+        assumptions=[ENGINE_ASM, SINK_ASM, MCS_ASM],
+        design_ref="DESIGN.md §7 C10"),
 })
 
 NOT_APPLICABLE = {
